@@ -1749,6 +1749,12 @@ struct Extractor
                 m.boolean("virtual", md->isVirtual());
                 m.boolean("static", md->isStatic());
                 m.str("ret", typeStr(md->getReturnType(), ctx));
+                {
+                    std::vector<std::string> ps;
+                    for (auto* p : md->parameters())
+                        ps.push_back(jstr(typeStr(p->getType(), ctx)));
+                    m.raw("ptypes", jlist(ps));
+                }
                 methods.push_back(m.done());
             }
             else if (auto* ft = dyn_cast<FunctionTemplateDecl>(d))
